@@ -12,15 +12,15 @@ Import ListNotations.
 Set Printing Width 400.
 
 (* the capability checks written inside request() bodies, function by function, in source order — the SAssert steps of
-   body_steps / wd_steps (EditConfig: test_option, 'test-only', 'rollback-on-error', format 'url';  Commit: confirmed;
-   Get / GetConfig: with_defaults;  the Junos and SR OS Commit: confirmed) *)
+   body_steps / wd_steps (EditConfig: test_option, 'test-only', 'rollback-on-error', format 'url';  Commit: confirmed, and persist_id
+   when not confirmed;  Get / GetConfig: with_defaults;  the Junos Commit: confirmed;  the SR OS Commit: as the standard one) *)
 Theorem tie_assert_calls : assert_calls =
   [ (lit "operations.edit.EditConfig.request"%string, [s_k_validate; s_k_validate11; s_k_rollback; s_k_url]);
-    (lit "operations.edit.Commit.request"%string, [s_k_confirmed]);
+    (lit "operations.edit.Commit.request"%string, [s_k_confirmed; s_k_confirmed]);
     (lit "operations.retrieve.Get.request"%string, [s_k_wd]);
     (lit "operations.retrieve.GetConfig.request"%string, [s_k_wd]);
     (lit "operations.third_party.juniper.rpc.Commit.request"%string, [s_k_confirmed]);
-    (lit "operations.third_party.sros.rpc.Commit.request"%string, [s_k_confirmed]) ].
+    (lit "operations.third_party.sros.rpc.Commit.request"%string, [s_k_confirmed; s_k_confirmed]) ].
 Proof. tie. Qed.
 Print Assumptions tie_assert_calls.
 
@@ -57,9 +57,9 @@ Print Assumptions tie_editconfig_branch_values.
 Definition dep (m n : string) : option (list bytes) := depends_of (lit m) (lit n).
 Theorem tie_depends :
   dep "ncclient.operations.edit" "Validate" = Some (class_deps (CValidate (SrcInline None))) /\
-  dep "ncclient.operations.edit" "Commit" = Some (class_deps (CCommit VStd false None None)) /\
-  dep "ncclient.operations.third_party.juniper.rpc" "Commit" = Some (class_deps (CCommit VJunos false None None)) /\
-  dep "ncclient.operations.third_party.sros.rpc" "Commit" = Some (class_deps (CCommit VSros false None None)) /\
+  dep "ncclient.operations.edit" "Commit" = Some (class_deps (CCommit VStd false false false false None None)) /\
+  dep "ncclient.operations.third_party.juniper.rpc" "Commit" = Some (class_deps (CCommit VJunos false false false false None None)) /\
+  dep "ncclient.operations.third_party.sros.rpc" "Commit" = Some (class_deps (CCommit VSros false false false false None None)) /\
   dep "ncclient.operations.edit" "CancelCommit" = Some (class_deps (CCancelCommit None)) /\
   dep "ncclient.operations.edit" "DiscardChanges" = Some (class_deps CDiscardChanges) /\
   dep "ncclient.operations.subscribe" "CreateSubscription" = Some (class_deps (CCreateSubscription None)) /\
